@@ -73,53 +73,82 @@ theorem parseIndent_nonspace (r : List Char) (h : ∀ c, r.head? = some c → py
       rcases hb with rfl | rfl <;> simp [pyIsSpace] at hc
     · rfl
 
-/-- the first row `_split_and_strip` returns for a multi-line text has no leading whitespace -/
-theorem splitAndStrip_head (text : List Char) (h : text.contains '\n' = true) :
+/-- the first row `_split_and_strip` returns has no leading whitespace — for multi-line texts because the dedented
+text is stripped as a whole, for single-line texts because the line is stripped (fix e9aec0a) -/
+theorem splitAndStrip_head (text : List Char) :
     ∃ r rest, splitAndStrip text = r :: rest ∧ ∀ c, r.head? = some c → pyIsSpace c = false := by
-  rw [splitAndStrip, if_pos h]
-  generalize hs : strip (joinNl (dedentLines (splitNl text))) = s
-  have hh := fun c => strip_head (joinNl (dedentLines (splitNl text))) c
-  rw [hs] at hh
-  cases s with
-  | nil => exact ⟨[], [], by simp [splitNl], by simp⟩
-  | cons c cs =>
-    have hc := hh c rfl
-    have hne : c ≠ '\n' := by
-      intro he; subst he; simp [pyIsSpace] at hc
-    obtain ⟨r, rest, hr⟩ := splitNl_head c cs hne
-    refine ⟨c :: r, rest, hr, ?_⟩
-    intro d hd
-    simp only [List.head?_cons, Option.some.injEq] at hd
-    subst hd; exact hc
+  rw [splitAndStrip]
+  split
+  · generalize hs : strip (joinNl (dedentLines (splitNl text))) = s
+    have hh := fun c => strip_head (joinNl (dedentLines (splitNl text))) c
+    rw [hs] at hh
+    cases s with
+    | nil => exact ⟨[], [], by simp [splitNl], by simp⟩
+    | cons c cs =>
+      have hc := hh c rfl
+      have hne : c ≠ '\n' := by
+        intro he; subst he; simp [pyIsSpace] at hc
+      obtain ⟨r, rest, hr⟩ := splitNl_head c cs hne
+      refine ⟨c :: r, rest, hr, ?_⟩
+      intro d hd
+      simp only [List.head?_cons, Option.some.injEq] at hd
+      subst hd; exact hc
+  · exact ⟨strip text, [], rfl, strip_head text⟩
 
-/-- If the first line of a yield is significant, it starts at the block's column — for every multi-line yield
-(because the dedented text is stripped as a whole) and for every single-line yield that does not start with a
-blank or a tab. -/
-theorem ownItems_first_column (text : String)
-    (h : text.toList.contains '\n' = true ∨ ∀ c, text.toList.head? = some c → pyIsSpace c = false) :
-    match ownItems text with
-    | .text k _ :: _ => k = 0
-    | _ => True := by
-  have key : ∃ r rest, splitAndStrip text.toList = r :: rest ∧ ∀ c, r.head? = some c → pyIsSpace c = false := by
-    rcases h with h | h
-    · exact splitAndStrip_head _ h
-    · by_cases hn : text.toList.contains '\n' = true
-      · exact splitAndStrip_head _ hn
-      · exact ⟨text.toList, [], by rw [splitAndStrip, if_neg hn], h⟩
-  obtain ⟨r, rest, hr, hc⟩ := key
+theorem classify_text_indent (r : List Char) (hc : ∀ c, r.head? = some c → pyIsSpace c = false) (k : Nat) (s : String)
+    (hcl : classify comments (String.ofList r) = .text k s) : k = 0 := by
   have hp := parseIndent_nonspace r hc
-  have hk : ∀ k s, classify comments (String.ofList r) = .text k s → k = 0 := by
-    intro k s hcl
-    simp only [classify, String.toList_ofList, hp] at hcl
-    split at hcl
+  simp only [classify, String.toList_ofList, hp] at hcl
+  split at hcl
+  · cases hcl
+  · split at hcl
     · cases hcl
-    · split at hcl
-      · cases hcl
-      · cases hcl; rfl
-  simp only [ownItems, hr, List.map_cons]
-  cases hcl : classify comments (String.ofList r) with
-  | text k s => exact hk k s hcl
-  | blank => trivial
-  | sectionEnd => trivial
+    · cases hcl; rfl
+
+/-- If the first line of a yield is significant, it starts at the block's column — for every yield. -/
+theorem ownItems_first_column (text : String) :
+    ∃ i rest, ownItems text = i :: rest ∧ ∀ k s, i = .text k s → k = 0 := by
+  obtain ⟨r, rest, hr, hc⟩ := splitAndStrip_head text.toList
+  refine ⟨classify comments (String.ofList r), rest.map fun r => classify comments (String.ofList r), ?_, ?_⟩
+  · simp only [ownItems, hr, List.map_cons]
+  · intro k s h
+    exact classify_text_indent r hc k s h
+
+/-- a single-line yield is one item -/
+theorem ownItems_single (text : String) (h : text.toList.contains '\n' = false) :
+    ownItems text = [classify comments (String.ofList (strip text.toList))] := by
+  have hn : ¬ (text.toList.contains '\n' = true) := by rw [h]; simp
+  simp only [ownItems, splitAndStrip, if_neg hn, List.map_cons, List.map_nil]
+
+/-- Every single-line yield — whatever blanks it starts or ends with — meets the well-formedness condition of the
+layout theorem, unless it is a `#`-in-column-0 line. -/
+theorem ownOk_single (text : String) (h : text.toList.contains '\n' = false) :
+    OwnOk (ownItems text) = true ↔ ownItems text ≠ [.sectionEnd] := by
+  obtain ⟨i, rest, hi, hk⟩ := ownItems_first_column text
+  have hs := ownItems_single text h
+  rw [hs] at hi ⊢
+  obtain ⟨rfl, rfl⟩ := List.cons.inj hi
+  cases hcl : classify comments (String.ofList (strip text.toList)) with
+  | blank => simp [OwnOk]
+  | sectionEnd => simp [OwnOk]
+  | text k s =>
+    have := hk k s hcl
+    subst this
+    simp [OwnOk]
+
+/-- A yield whose first line is significant and that has no `#`-in-column-0 line meets the well-formedness
+condition. -/
+theorem ownOk_of_first_text (text : String) (hse : (ownItems text).all (· != .sectionEnd) = true)
+    (hfirst : (ownItems text).head? ≠ some .blank) : OwnOk (ownItems text) = true := by
+  obtain ⟨i, rest, hi, hk⟩ := ownItems_first_column text
+  rw [hi] at hse hfirst ⊢
+  simp only [List.all_cons, Bool.and_eq_true] at hse
+  cases i with
+  | blank => simp at hfirst
+  | sectionEnd => simp at hse
+  | text k s =>
+    have := hk k s rfl
+    subst this
+    simp [OwnOk, hse.2]
 
 end Annet.Gen.Lemmas
